@@ -28,6 +28,7 @@ import (
 	"context"
 	"fmt"
 	"math/rand"
+	"os"
 	"runtime"
 	"sort"
 	"sync"
@@ -322,6 +323,10 @@ func TestC18(t *testing.T) {
 	r.Assume("e2e layer: every fake backend connection records all keep-alives it receives; pings/replies are stamped (one logical clock) before the write, receipts at the read; the k-th receipt of an id at a connection needs k earlier pings of that id by that connection and k earlier client replies of it")
 	r.Assume("hook verif_hooks_c18.go calls recordBackendKeepAlive/forwardKeepAlive exactly like the backend and client session handlers do")
 
+	if os.Getenv("VERIF_E2E_ONLY") != "" { // debugging aid, see runE2E
+		runE2E(r)
+		return
+	}
 	n := r.N(4000, 96000)
 	shards := r.N(1, 8)
 	cfg := config.DefaultConfig
